@@ -21,7 +21,7 @@ UNARY = {"Invert": "__invert__", "UAdd": "__pos__", "USub": "__neg__"}
 
 
 def r19_1(prog: Program, chk: Check) -> None:
-    chk.rule("R19.1", "dunder tables: every ast operator maps to (__op__, __iop__, __rop__) per the data model; reflected comparisons pair lt/gt, le/ge, eq/eq, ne/ne", floor=22)
+    chk.rule("R19.1", "dunder tables: every ast operator maps to (__op__, __iop__, __rop__) per the data model; reflected comparisons pair lt/gt, le/ge, eq/eq, ne/ne", floor=16)
     f = Folder(prog, "name_check_visitor")
     tab = f.table("BINARY_OPERATION_TO_DESCRIPTION_AND_METHOD")
     rows = {k.last: v for k, v in tab.items() if isinstance(k, Sym)}
